@@ -9,7 +9,7 @@ CHECKS = {
          "Generated writer programs (interleavings, piece sizes placed on/next to cipher-buffer, chunk and block boundaries, all layer sets, levels, recipients) are executed through the real writer and read back through the real reader; names, bytes, sizes and SHA-256 are compared with an in-memory model. Exploration: finds alignment- and interleaving-dependent defects the suite cannot, establishes nothing beyond the explored programs.",
          "Trusts the harness model, the sha2 crate and that the scaled constants preserve the order/divisibility relations of the production ones; production programs are capped at 9 MiB.", "DESIGN.md section 4 C01"),
  "C02": ("fault_enumeration", "exhaustive truncation enumeration over proptest-generated archives (scaled constants: every length x 2 modes; production: windows around every structural boundary + spread sample), repair output judged against the model",
-         "Every prefix of generated archives (all layer sets, levels, interleavings) is repaired in both modes and the repaired archive is re-read: no panic, output opens, names are original names, contents are prefixes, files not reported unfinished are complete, end-of-data status implies completeness. Exhaustive in the truncation length on the scaled build, so thin failing sets (15 lengths per chunk) are met by construction.",
+         "Every prefix of generated archives (all layer sets, levels, interleavings) is repaired in both modes and the repaired archive is re-read: no panic, output opens, names are original names, contents are prefixes, files not reported unfinished are complete, end-of-data status implies completeness. The same on archives encoded by the independent implementation, and on archives of one file whose bytes from a compression-block boundary on are well-formed records of files that do not exist, with the compressed end of the block steered to chosen offsets of the repair reader's buffer (a repair that loses its place would output them). Exhaustive in the truncation length on the scaled build, so thin failing sets (15 lengths per chunk) are met by construction.",
          "Archives are a generated sample; the scaled build assumes the layer algorithms depend on the constants only through their order/divisibility; production windows are +-24 bytes.", "DESIGN.md section 4 C02"),
  "C03": ("fault_enumeration", "fault enumeration on the normal reader: every-byte bit flips incl. header, chunk swap/dup/delete/splice from a twin archive, truncations, header-field edits, over generated encrypted archives, with rotated read orders and buffer sizes; byte-by-byte comparison with the model",
          "After each alteration the normal reader either fails or returns only original names and original bytes at their positions (position-by-position comparison of every successful read, re-opened files included); the unaltered archive is the control. Exhaustive over byte positions on the scaled build.",
